@@ -22,7 +22,11 @@ import uuid as _uuid
 sys.path.insert(0, os.path.dirname(os.path.abspath(__file__)))
 import b3  # noqa: E402
 
-CODEC = os.environ.get("VERIF_CODEC", "/verif/harness/target/debug/jbkdrive")
+_CODEC_DEFAULT = os.path.join(os.path.dirname(os.path.dirname(os.path.abspath(__file__))), "harness", "target", "debug", "jbkdrive")
+
+
+def codec():
+    return os.environ.get("VERIF_CODEC", _CODEC_DEFAULT)
 WORK = os.environ.get("VERIF_WORK", "/verif/work")
 BIG = 256 * 1024
 
@@ -50,12 +54,12 @@ def needed_bytes(v):
 
 
 def blake3_of(data):
-    if len(data) >= BIG and os.path.exists(CODEC):
+    if len(data) >= BIG and os.path.exists(codec()):
         fd, p = tempfile.mkstemp(dir=WORK, prefix="b3in")
         try:
             os.write(fd, data)
             os.close(fd)
-            out = subprocess.run([CODEC, "codec", "blake3", p], capture_output=True, check=True)
+            out = subprocess.run([codec(), "codec", "blake3", p], capture_output=True, check=True)
             return bytes.fromhex(out.stdout.decode().strip())
         finally:
             os.unlink(p)
@@ -76,7 +80,7 @@ def decompress(kind, raw):
     try:
         os.write(fd, raw)
         os.close(fd)
-        r = subprocess.run([CODEC, "codec", name, pin, pout], capture_output=True)
+        r = subprocess.run([codec(), "codec", name, pin, pout], capture_output=True)
         if r.returncode == 3:
             raise LayoutViolation("undecodable-stream", "%s: %s" % (name, r.stderr.decode().strip()))
         if r.returncode != 0:
